@@ -293,3 +293,23 @@ def _(E, case):
     E.ensure("ordered_box_of_the_endpoints", And(b[0] == Min(x1, x2), b[1] == Min(y1, y2), b[2] == Max(x1, x2),
                                                  b[3] == Max(y1, y2)))
     E.ensure("endpoints_kept", And(pt_eq(arc.start, (x1, y1)), pt_eq(arc.end, (x2, y2)), arc.sweep == 0))
+
+
+def arc_imul_contract(E, args, kwargs):
+    """contract of Arc.__imul__(Matrix) as far as callers need it (proved by C02/Arc.__imul__/contract):
+    start, end and center become their images (same objects), the radius points describe the image ellipse
+    (left unspecified here), the sweep changes sign for a negative determinant; returns self"""
+    arc, M = args
+    E.ensure("precondition_of_Arc.__imul__:matrix_argument", E.isinstance(M, "Matrix"))
+    m = tuple(mat_fields(M))
+    for n in ("start", "end", "center"):
+        p = E.get(arc, n)
+        if p is not None:
+            x, y = apply(m, pt(p))
+            p.x = x
+            p.y = y
+    for n in ("prx", "pry"):
+        E.set(arc, n, E.new("Point", x=E.real("img_%s_x" % n), y=E.real("img_%s_y" % n)))
+    dt = m[0] * m[3] - m[1] * m[2]
+    arc.sweep = Ite(dt < 0, -arc.sweep, arc.sweep)
+    return arc
